@@ -123,6 +123,20 @@ def valid_templates(tier="quick"):
                           {"op": "duplog", "path": "x", "content": "400", "label": "400 more records of x in the log (long history)"}])
     T.append(_mk("implicit_output", [Variant("v0", st)], {"dd.in": dd3}, ops, [nb], depth, ["produced", "implicit-output"]))
 
+    # D3e: the consumer of the dyndep-supplied output learns of it through a dyndep file of its own and has no manifest path to
+    # the producer (two scanners, one per object, as for compiled modules); either file may be re-made in the build
+    dd3e1 = dyndep_text([("o1", ["mod"], [], False)])
+    dd3e2 = dyndep_text([("o2", [], ["mod"], False)])
+    st = [Stmt("dd1", ex=["dd1.in"], copy=True), Stmt("dd2", ex=["dd2.in"], copy=True),
+          Stmt("o1", ex=["s1"], oo=["dd1"], dyndep="dd1", extra_outs=["mod"]),
+          Stmt("o2", ex=["s2"], oo=["dd2"], dyndep="dd2", extra_reads=["mod"]), Stmt("all", ex=["o1", "o2"], phony=True)]
+    ops = [{"op": "edit", "path": "s1", "label": "edit s1"}, {"op": "edit", "path": "s2", "label": "edit s2"},
+           {"op": "touch", "path": "dd1.in", "label": "touch dd1.in"}, {"op": "touch", "path": "dd2.in", "label": "touch dd2.in"}]
+    nb = len(ops)
+    ops += [ninja_op(j=2), ninja_op(targets=["o2"], j=1)]
+    T.append(_mk("consumer_in_another_dyndep_file", [Variant("v0", st, defaults=["all"])], {"dd1.in": dd3e1, "dd2.in": dd3e2}, ops, [nb],
+                 min(depth, 5), ["produced", "implicit-output"]))
+
     # D3d: the statement also writes a plain depfile, and -- as compilers that produce module files do -- names all its outputs
     # in it, the dyndep-supplied one included
     dd3d = dyndep_text([("out", ["out.mod"], [], False)])
